@@ -427,7 +427,9 @@ impl Server {
 
     /// shutdown + exit; true if the loop returned Ok
     pub fn shutdown(mut self) -> bool {
-        let _ = self.send("shutdown", Value::Null);
+        // like a real client: wait for the shutdown response before sending exit
+        let id = self.send("shutdown", Value::Null);
+        let _ = self.outcome(id, Duration::from_secs(10));
         self.notify("exit", Value::Null);
         let t = self.thread.take().unwrap();
         let t0 = Instant::now();
